@@ -16,6 +16,11 @@ CHECKS = {
         'brace span rules. Two genuine defects are proved as negations (C18_full_false, C18_ctl_full_false) and listed as known findings. '
         'skool2html/sna2skool/#TABLE/#LIST paths are e2e exploration.',
    note=TB + 'hand models Model/Wrap, AsmRows, Braces tied by correspondence (18k ops/run); CPython textwrap/str.format modelled, not verified', ref='§8 C18'),
+ 'C16': dict(cat='proof', technique='Lean 4 theorems (induction on common prefix for relpath; link-closure of an abstract site) + model/implementation correspondence + e2e crawl',
+   text='15 theorems: posixpath normpath/join/relpath model with relpath_resolves for all relative paths and cwds; abstract site (entries, anchors, #R, operand links, single/multi page, remote code) '
+        'with anchor uniqueness, path injectivity and all_links_resolve under an executable well-formedness check that is evaluated on every site extracted from a real skool2html run. '
+        'Templates, assets, index/box pages and #LINK are covered by the e2e crawl (every href/src of every written file) only.',
+   note=TB + 'hand models Model/PathAlg, HtmlSite tied by correspondence (53k cases/run); skool parsing taken from the real SkoolParser; posixpath modelled, not verified', ref='§8 C16'),
 }
 NA = {}
 def main():
